@@ -36,12 +36,12 @@ func (r *runner) visible(c *callRec) (int64, int64) {
 }
 
 type regWrite struct {
-	val      string
-	vs, ve   int64
-	cs, ce   int64
-	txn      bool
-	certain  bool
-	who      string
+	val     string
+	vs, ve  int64
+	cs, ce  int64
+	txn     bool
+	certain bool
+	who     string
 }
 
 func hb(a, b regWrite) bool {
@@ -83,8 +83,10 @@ func overlap(a1, a2, b1, b2 int64) bool { return a1 <= b2 && b1 <= a2 }
 var wordRe = regexp.MustCompile(`[a-z]+`)
 
 // errClass reduces an error text to its first words without identifiers.
+var idRe = regexp.MustCompile(`\b(baf[a-z0-9]{20,}|bae-[0-9a-f-]{20,}|12D3[A-Za-z0-9]{20,})\b`)
+
 func errClass(s string) string {
-	ws := wordRe.FindAllString(strings.ToLower(s), -1)
+	ws := wordRe.FindAllString(strings.ToLower(idRe.ReplaceAllString(s, "")), -1)
 	var keep []string
 	for _, w := range ws {
 		if len(w) > 24 || strings.HasPrefix(w, "bae") || strings.HasPrefix(w, "bafy") {
@@ -161,6 +163,11 @@ func (r *runner) evaluate() {
 				r.fail(hx.Failf("C16/merge-lost/conflict-although-retries-left",
 					"incoming merge %s was dropped with a transaction conflict although MaxTxnRetries (%d) exceeds the number of commits of the case: %s\n%s",
 					short(key), r.tgt.DB.MaxTxnRetries(), f, r.history()))
+			} else if strings.Contains(f, "corrupted index") && r.indexedAndOverlapped(key, doc) {
+				// syncIndexedDoc reads the "old" document in a fresh transaction, not in the snapshot
+				// of the merge: a local write that commits in between makes the index update look for
+				// an entry the merge transaction does not have; the error ends the merge without retry
+				r.fail(hx.Failf(sigMergeCorruptedIndex, "incoming merge %s was dropped: %s; an index existed (or was being created) and a local write of the same document overlapped the merge\n%s", short(key), f, r.history()))
 			} else {
 				r.fail(hx.Failf("C16/merge-lost/"+errClass(f), "incoming merge %s concurrent with local calls was dropped: %s\n%s", short(key), f, r.history()))
 			}
@@ -397,6 +404,22 @@ func (r *runner) checkShared(d int, id string, row map[string]any, mergeFailed b
 	}
 }
 
+// indexedAndOverlapped: a CreateIndex call started before the merge ended, and a local write of
+// the same document overlapped the merge.
+func (r *runner) indexedAndOverlapped(key, doc string) bool {
+	from, to := r.merges.firstPub[key], r.merges.lastEnd[key]
+	ix, wr := false, false
+	for _, cl := range r.calls {
+		if cl.Op.K == kCreateIndex && cl.Status != stConflict && cl.Start < to {
+			ix = true
+		}
+		if isWriteKind(cl.Op.K) && cl.Doc == doc && overlap(from, to, cl.Start, cl.End) {
+			wr = true
+		}
+	}
+	return ix && wr
+}
+
 func keysInt(m map[int]bool) []int {
 	var out []int
 	for k := range m {
@@ -488,10 +511,99 @@ func (r *runner) checkIndexes(rows []map[string]any) {
 		sort.Strings(got)
 		if strings.Join(got, ",") != strings.Join(want, ",") {
 			indexed := (p.field == "tag" && have["ix0"]) || (p.field == "i" && have["ix1"])
-			r.fail(hx.Failf(fmt.Sprintf("C16/structure/index-content/%s/indexed=%v", p.field, indexed),
+			sig := fmt.Sprintf("C16/structure/index-content/%s/indexed=%v", p.field, indexed)
+			ixName := map[string]string{"tag": "ix0", "i": "ix1"}[p.field]
+			if indexed {
+				skew, stale := 0, 0
+				diff := symDiff(got, want)
+				for _, id := range diff {
+					if r.explainedByCreateIndexOverlap(ixName, []string{id}) {
+						skew++
+					} else if r.explainedByStaleDocumentUpdate(id) {
+						stale++
+					}
+				}
+				switch {
+				case skew == len(diff):
+					// CreateIndex scans the documents of its snapshot; a write that commits meanwhile did not
+					// see the index either: neither side indexes the document and both commits succeed
+					sig = sigIndexWriteSkew
+				case skew+stale == len(diff):
+					// collection.Update recomputes the index entries from ALL fields of the client.Document it is
+					// given; fields that are not dirty still hold what an earlier Get saw
+					sig = sigIndexStaleDoc
+				}
+			}
+			r.fail(hx.Failf(sig,
 				"filter %s = %s returns %v, the documents themselves give %v (indexes present: %v)\n%s", p.field, p.lit, shorts(got), shorts(want), have, r.history()))
 		}
 	}
+}
+
+func symDiff(a, b []string) []string {
+	in := map[string]int{}
+	for _, x := range a {
+		in[x] |= 1
+	}
+	for _, x := range b {
+		in[x] |= 2
+	}
+	var out []string
+	for x, m := range in {
+		if m != 3 {
+			out = append(out, x)
+		}
+	}
+	sort.Strings(out)
+	return out
+}
+
+// explainedByCreateIndexOverlap: every document in docs was written by a call that overlapped an
+// acknowledged CreateIndex of that index.
+func (r *runner) explainedByCreateIndexOverlap(index string, docs []string) bool {
+	if len(docs) == 0 {
+		return false
+	}
+	for _, id := range docs {
+		ok := false
+		for _, w := range r.calls {
+			if !isWriteKind(w.Op.K) || w.Doc != id || r.effect(w) == stConflict {
+				continue
+			}
+			ws, we := r.visible(w)
+			for _, ci := range r.calls {
+				if ci.Op.K == kCreateIndex && ci.Note == index && ci.Status == stOK && overlap(ws, we, ci.Start, ci.End) {
+					ok = true
+				}
+			}
+		}
+		if !ok {
+			return false
+		}
+	}
+	return true
+}
+
+// explainedByStaleDocumentUpdate: a collection-API Get+Update call on the document was acknowledged
+// and overlapped an acknowledged write of the same document by another goroutine.
+func (r *runner) explainedByStaleDocumentUpdate(id string) bool {
+	for _, w := range r.calls {
+		if w.Doc != id || w.Status != stOK || w.Txn {
+			continue
+		}
+		if w.Op.K != kIncSharedC && w.Op.K != kSetIShared && w.Op.K != kIncOwn {
+			continue
+		}
+		for _, o := range r.calls {
+			if o != w && o.G != w.G && o.Doc == id && isWriteKind(o.Op.K) && r.effect(o) == stOK {
+				os, oe := r.visible(o)
+				if overlap(w.Start, w.End, os, oe) {
+					return true
+				}
+			}
+		}
+	}
+	return false
 }
 
 func shorts(xs []string) []string {
